@@ -59,6 +59,12 @@ class BalancedMoveRule(BaseRule):
         ):
             return None
 
+        # Chained equations (a = b = c) have no single "other side" to balance
+        if isinstance(root.left, EqualExpression) or isinstance(
+            root.right, EqualExpression
+        ):
+            return None
+
         if isinstance(node.parent, MultiplyExpression) and isinstance(
             node, ConstantExpression
         ):
